@@ -894,6 +894,17 @@ impl RootRef<'_> {
             description: "file creation path has trailing slash".into(),
         })?;
 
+        // "." and ".." are never the name of a file that can be created. The
+        // kernel refuses them in a creating open (EISDIR), but with O_PATH it
+        // ignores O_CREAT -- and that rule with it -- and ".." would then walk
+        // out of the directory we resolved (for the root, out of the root).
+        if matches!(name.as_os_str().as_bytes(), b"." | b"..") {
+            Err(ErrorImpl::OsError {
+                operation: "pathrs create_file".into(),
+                source: IOError::from_raw_os_error(libc::EISDIR),
+            })?
+        }
+
         // XXX: openat2(2) supports doing O_CREAT on trailing symlinks without
         // O_NOFOLLOW. We might want to expose that here, though because it
         // can't be done with the emulated backend that might be a bad idea.
